@@ -17,15 +17,15 @@ ID = 'C04'
 MODULE = 'PyTough.Props.C04'
 TARGETS = ['PyTough.Props.C04', 'drv_c04']
 THEOREMS = ['Props.C04.' + t for t in [
-    'fromgeo_blocks_eq_namelist', 'fromgeo_connections_eq_namelist',
+    'fromgeo_blocks_eq_namelist', 'fromgeo_connections_eq_namelist', 'fromgeo_consistent',
     'fromgeo_succeeds', 'grid_block_data', 'grid_connection_origin', 'layer_stack_adjacent',
     'block_volume_formula', 'column_volume_telescopes', 'total_volume', 'polygon_area_is_shoelace',
     'vertical_connection_geometry', 'vertical_connection_atmosphere',
     'grid_block_volume', 'grid_vertical_distances_add_up',
     'untilted_tilt_vector', 'gravity_cosine_vertical', 'gravity_cosine_horizontal', 'gravity_cosine_truncated',
     'horizontal_connection_geometry', 'direction_by_permeability_angle', 'perpendicular_is_shortest']]
-LEVEL_TEXT = ('Proof over exact arithmetic: 21 Lean theorems about an executable model of fromgeo and the geometry helpers '
-              '(fromgeo returns on every well-formed geometry; block list and connection list equal the announced name lists, in order '
+LEVEL_TEXT = ('Proof over exact arithmetic: 22 Lean theorems about an executable model of fromgeo and the geometry helpers '
+              '(fromgeo returns on every well-formed geometry; block list and connection list equal the announced name lists, in order (distinctness of the announced pairs is derived, not assumed); the grid satisfies the C08 consistency clauses; '
               'and orientation, for every geometry, naming convention, atmosphere type, block order and injective block map; every block '
               'carries block_volume/block_centre of its layer and column and every connection comes from one of the two loop bodies; volume '
               'formula and telescoping to area x depth; vertical/atmosphere connection distances; gravity cosines; horizontal area = edge x '
@@ -43,7 +43,9 @@ ASSUMPTIONS = [
 TRUSTED_EXTRA = ['Model/FromGeo.lean as a model of fromgeo and helpers: diffed against the real code on every run (facet fromgeo)']
 
 HYPS = ['Fresh (cached block_name_list up to date)', 'LayersWF (flat atmosphere layer, tops chain, distinct layer names)',
-        'Nodup of the mapped block names', 'Nodup of the mapped announced connection names', 'parseOk (every block name parses back to its layer and column)']
+        'Nodup of the mapped block names', 'Nodup of the mapped announced connection names (now a consequence, still evaluated)',
+        'parseOk (every block name parses back to its layer and column)',
+        'ConnsWF (one geometry connection per ordered column pair, joining two different columns)']
 RTOL = 1e-9
 CTOL = 1e-12
 SHIPPED = ['g1.dat', 'g2.dat', 'g3.dat', 'g4.dat', 'g5.dat', 'g6.dat', 'g7.dat']
